@@ -221,26 +221,36 @@ def reset():
     _cache.clear()
 
 
-def flat_func(mod: "Module", qualname: str):
+def flat_func(mod: "Module", qualname: str, skip=None):
     """The function's AST with every statement `self.helper()` (no arguments; helper a method of the same class whose body has no `return <value>` and no
     `yield`) replaced by the helper's body - one level, mechanically.  Static obligations that read a function's text use this, so that moving a few statements
     into a private helper method does not change what they see."""
     import copy
 
     fn = copy.deepcopy(mod.func(qualname))
-    cls = qualname.rsplit(".", 1)[0] if "." in qualname else None
-    if cls is None or cls not in mod.classes:
+    outer = qualname.rsplit(".", 1)[0] if "." in qualname else None
+    if outer is None or (outer not in mod.classes and outer not in mod.functions):
         return fn
+    cls = outer if outer in mod.classes else None
 
     def helper_body(call):
-        if not (isinstance(call, ast.Call) and not call.keywords and all(isinstance(x, ast.Name) for x in call.args) and isinstance(call.func, ast.Attribute)
-                and isinstance(call.func.value, ast.Name) and call.func.value.id == "self"):
+        if not (isinstance(call, ast.Call) and not call.keywords and all(isinstance(x, ast.Name) for x in call.args)):
             return None
-        q = f"{cls}.{call.func.attr}"
+        if cls is not None and isinstance(call.func, ast.Attribute) and isinstance(call.func.value, ast.Name) and call.func.value.id == "self":
+            name, nself = call.func.attr, 1
+            if sum(1 for k in mod.functions if k.endswith("." + name) and k.count(".") == 1) != 1:
+                return None   # defined in several classes: the call is virtual, there is no one body to inline
+        elif cls is None and isinstance(call.func, ast.Name):
+            name, nself = call.func.id, 0     # a sibling nested function of the same enclosing function
+        else:
+            return None
+        q = f"{outer}.{name}"
         h = mod.functions.get(q)
-        if h is None or q == qualname or len(h.args.args) != 1 + len(call.args) or h.args.vararg or h.args.kwarg or h.args.kwonlyargs:
+        if skip is not None and skip(q):
             return None
-        ren = {prm.arg: x.id for prm, x in zip(h.args.args[1:], call.args)}
+        if h is None or q == qualname or len(h.args.args) != nself + len(call.args) or h.args.vararg or h.args.kwarg or h.args.kwonlyargs:
+            return None
+        ren = {prm.arg: x.id for prm, x in zip(h.args.args[nself:], call.args)}
         if any(isinstance(n, (ast.Assign, ast.AugAssign, ast.AnnAssign, ast.For, ast.With)) and any(isinstance(t, ast.Name) and t.id in ren for t in ast.walk(n) if isinstance(getattr(t, "ctx", None), ast.Store))
                for n in ast.walk(h)):
             return None   # the helper rebinds a parameter: not a plain inline
